@@ -661,7 +661,7 @@ def gen_case(rng, k, all_hidden_p=0.04):
 
 def replayable(case):
     return {k: case[k] for k in ("k", "response", "transforms", "strand", "kinds", "three_d",
-                                 "population", "part", "malformed", "overlaps") if k in case}
+                                 "population", "part", "malformed", "overlaps", "ins_order_class") if k in case}
 
 
 def partitions(case):
@@ -704,6 +704,213 @@ def _ints(x):
 
 def removed_elements(order_a, order_b):
     return sorted(s for s in order_b if s >= 0 and s not in set(order_a))
+
+
+VALUE_SORT_TYPES = ("label", "marginal", "opposing_element", "opposing_insertion", "univariate_measure")
+AXIS_KEYS = ("rows_dimension", "columns_dimension")
+
+
+def requested_collation(case, axis, stripped=False):
+    """'explicit' | 'value-sort' | 'payload' as the transforms of the case ask for on `axis`"""
+    if stripped:
+        return "payload"
+    o = ((case.get("transforms") or {}).get(AXIS_KEYS[axis]) or {}).get("order")
+    t = o.get("type") if isinstance(o, dict) else None
+    return "explicit" if t == "explicit" else "value-sort" if t in VALUE_SORT_TYPES else "payload"
+
+
+def _entry(x):
+    """canonical spelling of one entry of an order in either format: '3' / 'ins_7'"""
+    if isinstance(x, (bytes, np.bytes_)):
+        x = x.decode()
+    if isinstance(x, (str, np.str_)):
+        return str(x).strip()
+    return str(int(x))
+
+
+def check_renderings(case, parts, signed, ctx, strand, res):
+    """The display order is REPORTED in two forms: signed indexes and insertion ids
+    (`row_order(ORDER_FORMAT.BOGUS_IDS)`).  Both are "the reported order" of the property, so in
+    each run and on each axis
+
+      (1) position i of the insertion-id form names what position i of the signed form names: a base
+          element's index unchanged, 'ins_<k>' with k the insertion id of the subtotal the negative
+          index addresses.  The ids are read from the dimension's own subtotal sequence (the one the
+          signed index is an offset into; `_dimensions`: no public way), not from the collator;
+      (2) the label displayed at position i is the label of a subtotal whose insertion id is k;
+      (3) like every other row-wise / column-wise output, the insertion-id form of the transformed run
+          is that of the untransformed run re-indexed by the (signed) order.
+
+    -> coverage keys (for rep.dist)"""
+    try:
+        from cr.cube.enums import ORDER_FORMAT
+        fmt = ORDER_FORMAT.BOGUS_IDS
+    except Exception as e:  # noqa
+        res["issues"].append(Issue("harness", "ORDER_FORMAT", {"error": repr(e)}, {"sig": "missing-attribute"}))
+        return []
+    cov = []
+    axes = ("row",) if strand else ("row", "column")
+    rendered = {}
+    for run, part in zip(("transformed", "untransformed"), parts):
+        for axis, ax_name in enumerate(axes):
+            nm = ax_name + "_order"
+            sg = signed[run][axis]
+            where = ("strand-" if strand else "slice-") + ax_name + "s"
+            coll = requested_collation(case, axis, stripped=(run == "untransformed"))
+            sctx = {"sig": "order-renderings-disagree", "output": nm, "run": run}
+            r = impl.get(part, nm, fmt)
+            res["n"] += 1
+            if r[0] != "ok":
+                res["issues"].append(Issue("order-rendering", nm + "(BOGUS_IDS)",
+                                           {"run": run, "signed": sg, "insertion_id_format_raises": r[1:]}, sctx))
+                continue
+            got = [_entry(x) for x in r[1]]
+            rendered[(run, axis)] = got
+            try:
+                subs = list(part._dimensions[axis].subtotals)
+                ids = [s.insertion_id for s in subs]
+                sub_labels = [str(s.label) for s in subs]
+            except Exception as e:  # noqa
+                res["issues"].append(Issue("harness", nm, {"error": repr(e)}, {"sig": "missing-attribute"}))
+                continue
+            n_sub = len(ids)
+            if any(not (-n_sub <= s) for s in sg):
+                continue            # reported as order-out-of-range by the caller
+            want = [str(s) if s >= 0 else "ins_%s" % (ids[n_sub + s],) for s in sg]
+            shown = [n_sub + s for s in sg if s < 0]
+            out_of_def = len(shown) >= 2 and shown != sorted(shown)
+            key = "%s %s %s" % (where, coll, "subtotals>=2-not-in-definition-order" if out_of_def
+                                else "subtotals>=2-in-definition-order" if len(shown) >= 2
+                                else "subtotals<2")
+            cov.append("ins-id-order[%s]: %s" % (run, key))
+            detail = {"run": run, "axis": ax_name, "requested_collation": coll, "signed": sg,
+                      "insertion_ids_in_definition_order": core.jsonable(ids),
+                      "insertion_id_format": got, "expected": want,
+                      "transforms": (case.get("transforms") or {}).get(AXIS_KEYS[axis])}
+            if got != want:
+                res["issues"].append(Issue("order-rendering", nm + "(BOGUS_IDS)", detail, sctx))
+                continue
+            lab = impl.get(part, ax_name + "_labels")
+            res["n"] += 1
+            if lab[0] == "ok" and len(lab[1]) == len(got):
+                for i, (e, lb) in enumerate(zip(got, lab[1])):
+                    if not e.startswith("ins_"):
+                        continue
+                    cands = [l_ for k_, l_ in zip(ids, sub_labels) if "ins_%s" % (k_,) == e]
+                    if str(lb) not in cands:
+                        d = dict(detail)
+                        d.update({"position": i, "label_displayed": str(lb), "labels_of_that_insertion_id": cands})
+                        res["issues"].append(Issue("order-rendering", ax_name + "_labels vs " + nm + "(BOGUS_IDS)",
+                                                   d, sctx))
+                        break
+    # (3) relational: re-indexed like every other output
+    for axis, ax_name in enumerate(axes):
+        ga, gb = rendered.get(("transformed", axis)), rendered.get(("untransformed", axis))
+        amap = ctx.rmap if axis == 0 else ctx.cmap
+        if ga is None or gb is None or amap is None or any(p is None for p in amap) or len(gb) != len(
+                signed["untransformed"][axis]):
+            continue
+        res["n"] += 1
+        want = [gb[p] for p in amap]
+        if ga != want:
+            res["issues"].append(Issue("order-rendering", ax_name + "_order(BOGUS_IDS)",
+                                       {"why": "not the untransformed insertion-id order re-indexed by the order",
+                                        "transformed": ga, "untransformed_reindexed": want,
+                                        "signed": signed["transformed"][axis]},
+                                       {"sig": "order-renderings-disagree", "output": ax_name + "_order",
+                                        "run": "relational"}))
+    return cov
+
+
+def gen_insertion_order_case(rng, k):
+    """CAT x CAT slice / CAT strand in which every categorical dimension carries 2-3 subtotals whose
+    DISPLAY order differs from their DEFINITION order: anchored on distinct categories (or top /
+    bottom) and listed in the reverse of the payload order of their anchors, then displayed in payload
+    order, under an explicit order (which moves the anchors again) or under a value sort (subtotals
+    grouped and sorted by value); ids given / generated / partly given; view or transform insertions;
+    hiding and pruning on top."""
+    case = {"k": k, "malformed": False, "ins_order_class": True}
+    strand = rng.random() < 0.34
+    nvars = 1 if strand else 2
+    variables = [gen.make_cat(rng, ("rowv", "colv")[a], n_valid=rng.randint(3, 5)) for a in range(nvars)]
+    transforms = {}
+    for axis, v in enumerate(variables):
+        valid = gen.valid_cat_ids(v)
+        n_ins = rng.choice([2, 2, 3])
+        anchors = rng.sample(valid, min(n_ins, len(valid)))
+        anchors.sort(key=valid.index)
+        if rng.random() < 0.3:
+            anchors[0] = "top"
+        if rng.random() < 0.3:
+            anchors[-1] = "bottom"
+        ids_mode = rng.choice(["all", "all", "none", "some"])
+        pool_ids = rng.sample(range(1, 12), len(anchors))
+        ins = []
+        for j, a in enumerate(anchors):
+            pos = rng.sample(valid, rng.randint(1, min(3, len(valid))))
+            d = {"function": "subtotal", "name": "%s_sub%d" % (v.alias, j), "anchor": a}
+            if rng.random() < 0.6:
+                d["args"] = pos
+            else:
+                d["kwargs"] = {"positive": pos}
+                if rng.random() < 0.3:
+                    d["kwargs"]["negative"] = rng.sample(valid, 1)
+            if ids_mode == "all" or (ids_mode == "some" and rng.random() < 0.5):
+                d["id"] = pool_ids[j]
+            if rng.random() < 0.5:
+                d["fill"] = "#%06x" % rng.randrange(1 << 24)
+            ins.append(d)
+        r = rng.random()
+        if r < 0.6:
+            ins.reverse()               # defined in the reverse of the order their anchors display them
+        elif r < 0.85:
+            rng.shuffle(ins)
+        t = {}
+        if rng.random() < 0.6:
+            v.view_insertions = ins
+            if rng.random() < 0.25:
+                t["insertions"] = ou.derive_transform_insertions(rng, ins, v, [])
+        else:
+            t["insertions"] = ins
+        kind = ("payload", "explicit", "value-sort")[(k + axis) % 3]
+        if kind == "explicit":
+            lst = valid[:]
+            rng.shuffle(lst)
+            if rng.random() < 0.3:
+                lst = lst[:rng.randint(1, len(lst))]
+            t["order"] = {"type": "explicit", "element_ids": lst}
+        elif kind == "value-sort":
+            if strand:
+                t["order"] = {"type": rng.choice(["label", "univariate_measure"]),
+                              "measure": rng.choice(["count_unweighted", "count_weighted", "percent",
+                                                     "base_unweighted"])}
+            elif rng.random() < 0.3 and axis == 0:
+                t["order"] = {"type": "marginal", "marginal": rng.choice(["unweighted_base", "weighted_base"])}
+            elif rng.random() < 0.3:
+                t["order"] = {"type": "label"}
+            else:
+                t["order"] = {"type": "opposing_element",
+                              "element_id": rng.choice(gen.valid_cat_ids(variables[1 - axis])),
+                              "measure": rng.choice(["count_unweighted", "count_weighted", "col_percent",
+                                                     "row_percent", "table_percent"])}
+            t["order"]["direction"] = rng.choice(["ascending", "descending"])
+            if rng.random() < 0.3:
+                t["order"]["fixed"] = {rng.choice(["top", "bottom"]): [rng.choice(valid)]}
+        elif rng.random() < 0.4:
+            t["order"] = {"type": "payload_order"}
+        if rng.random() < 0.35:
+            t["elements"] = {str(rng.choice(valid)): {"hide": True}}
+        if rng.random() < 0.4:
+            t["prune"] = True
+        transforms[AXIS_KEYS[axis]] = t
+    sv = gen.Survey(variables, rng.choice([8, 15, 30, 50]), rng, weighted=rng.random() < 0.5,
+                    integer_weights=rng.random() < 0.3)
+    if rng.random() < 0.5:
+        thin_out(rng, sv, variables)
+    resp = gen.cube_response(sv, [v.alias for v in variables])
+    case.update({"response": resp, "transforms": transforms, "strand": strand,
+                 "kinds": [v.kind for v in variables], "three_d": False, "population": None, "part": 0})
+    return case
 
 
 def check_pair(case, sample_names=None):
@@ -782,6 +989,10 @@ def check_pair(case, sample_names=None):
                                            ("rows_dimension", "columns_dimension")[axis])},
                                        {"sig": "order-duplicates"}))
             dup_axes.append(axis)
+    # --- the order in its other reported form (insertion ids) names the same vectors
+    res["info"]["renderings"] = check_renderings(
+        case, (A, B), {"transformed": [ro_a] + ([] if strand else [co_a]),
+                       "untransformed": [ro_b] + ([] if strand else [co_b])}, ctx, strand, res)
     names = public_outputs(type(A))
     res["info"]["n_outputs"] = len(names)
     res["info"]["uncallable"] = [n for n, k in names if k == "other"]
